@@ -627,3 +627,22 @@ Proof.
   intros Hat st o d Hw Hd Hb. apply (failed_write_leaves_state c residue st o d Hw Hd Hb).
   apply atomic_at_holds. exact Hat.
 Qed.
+
+(* ------------------------------------------------------------------------------------------------ *)
+(** * The property at full strength, for given facts and given engine behaviour on a failed COPY
+      (stated here so that props/C14.v and props/C14_refuted.v speak about the same statement) *)
+
+Definition hist_wf (ops : list op) : bool := forallb op_wf ops.
+
+Definition modes_full (c : cfg) (residue : residue_fn) : Prop :=
+  forall ops, hist_wf ops = true ->
+    s_run s_init ops = (abs (fst (m_run c residue m_init ops)), snd (m_run c residue m_init ops)).
+Definition catalog_full (c : cfg) (residue : residue_fn) : Prop :=
+  forall ops k,
+    ahas k (m_tabs (fst (m_run c residue m_init ops)))
+    = live (fun _ => false) ops (snd (m_run c residue m_init ops)) k.
+Definition faults_full (c : cfg) (residue : residue_fn) : Prop :=
+  forall st o d, is_write o = true -> op_df o = Some d -> df_bad d = true ->
+    fst (m_step c residue st o) = st.
+Definition property_full (c : cfg) (residue : residue_fn) : Prop :=
+  modes_full c residue /\ catalog_full c residue /\ faults_full c residue.
